@@ -643,13 +643,24 @@ def plugin_selftest(plugin, stream, cases_txt, impl_txt, model_txt):
     cases = parse_cases(cases_txt)
     impl = parse_obs(impl_txt)
     model = parse_obs(model_txt)
+    last = None
+    tried = 0
     for cid, header, ops in cases:
         io = impl.get(cid, [])
         planted = plugin.plant(stream, header, ops, io) if hasattr(plugin, "plant") else None
-        if planted is None:
-            continue
+        if planted is None or [l for l in planted if l != ";"] == [l for l in io if l != ";"]:
+            continue        # nothing to plant here, or the planted line happens to equal the real one
         d = plugin.compare(stream, header, ops, planted, model.get(cid, []))
         o = plugin.oracle(stream, header, ops, planted)
         ok = d is not None and (o is not None or not getattr(plugin, "PLANT_ORACLE", True))
-        return {"ok": ok, "diff_saw_it": d is not None, "oracle_saw_it": o is not None, "case": cid, "stream": stream}
+        last = {"ok": ok, "diff_saw_it": d is not None, "oracle_saw_it": o is not None, "case": cid, "stream": stream}
+        tried += 1
+        # a planted value can be right by accident (a dropped element that was a duplicate, an index that maps to the same
+        # node): the self-test fails only when three different planted cases in a row go unnoticed
+        if ok or tried >= 3:
+            last["planted_cases_tried"] = tried
+            return last
+    if last is not None:
+        last["planted_cases_tried"] = tried
+        return last
     return {"ok": True, "skipped": "no plantable case"}
